@@ -10,7 +10,7 @@ from fiddle._src import config as config_lib
 from harness import common, l2, c02
 from harness.common import Failure, Result, Stream, g_list, g_pair, g_N
 
-COQ_TARGETS = ["theories/C04Check.vo", "theories/Anchors.vo"]
+COQ_TARGETS = ["theories/C04Check.vo", "theories/AnchorsBuild.vo"]
 TRUSTED_BASE = ["functools.partial itself is CPython; its merge of positional / keyword arguments is modelled "
                 "(Partial.merge_kw, pos ++ call_pos) and validated by this stream"]
 ASSUMPTIONS = []
